@@ -1748,6 +1748,21 @@ extern void generateStaticOrthogonalVisGraph(Router *router)
 {
     const size_t n = router->m_obstacles.size();
     const unsigned cpn = router->vertices.connsSize();
+
+    // The visibility directions of connector endpoints on the outside of
+    // the scene are widened below, but only for the graph built here, so
+    // remember the directions requested by the user and restore them at
+    // the end.  Otherwise an endpoint would keep the extra directions in
+    // all later transactions, even once it is no longer on the outside.
+    std::vector<std::pair<VertInf *, ConnDirFlags> > requestedDirections;
+    for (VertInf *curr = router->vertices.connsBegin();
+            curr && (curr != router->vertices.shapesBegin());
+            curr = curr->lstNext)
+    {
+        requestedDirections.push_back(
+                std::make_pair(curr, curr->visDirections));
+    }
+
     // Set up the events for the vertical sweep.
     size_t totalEvents = (2 * n) + cpn;
     Event **events = new Event*[totalEvents];
@@ -1994,6 +2009,13 @@ extern void generateStaticOrthogonalVisGraph(Router *router)
         horiLine.generateVisibilityEdgesFromBreakpointSet(router, dim);
 
         it = segments.list().erase(it);
+    }
+
+    // Restore the visibility directions requested for connector endpoints.
+    for (size_t i = 0; i < requestedDirections.size(); ++i)
+    {
+        requestedDirections[i].first->visDirections =
+                requestedDirections[i].second;
     }
 }
 
